@@ -6,4 +6,5 @@ CONSTANTS
   Vias <- ViasPair
   MaxInject = 1
   Spoof = TRUE
-INVARIANTS ReplyIffValid ExactlyOne ToSender ReplyHeader NeverAnswersReply BoundedTraffic
+  RestoreAtTop = TRUE
+INVARIANTS ReplyIffValid ExactlyOne ToSender ReplyHeader NeverAnswersReply BoundedTraffic HistoryIndependence
